@@ -234,6 +234,14 @@ def run(ctx, impl_only=False):
                 ({'a': d_, 'b': d_, 'c': [d_]}, {'a': {'u': 2}, 'b': {'u': 1, 'v': 3}, 'c': [{'u': 'x'}]}), ({'p': f_, 'q': [f_]}, {'p': frozenset({1, 2, 3}), 'q': [frozenset({2})]}),
                 ({'a': {'in': s_}, 'b': {'in': s_}}, {'a': {'in': {1, 2, 5}}, 'b': {'in': {6}}})]
     pairs += aliased()
+    # flat sequences in which something is inserted or deleted before a replaced chunk (the t1 and t2 indexes of the chunk differ), and
+    # flat sequences of date-like leaves with several changes (both passes of the ordered comparison run)
+    import datetime as _dtm
+    d_, t_, td_ = _dtm.date, _dtm.time, _dtm.timedelta
+    pairs += [([0, 1, 2, 3], [1, 2, 9, 8]), (['a', 'b', 'c'], ['x', 'a', 'b', 'q', 'r']), ([1, 2, 3, 4, 5, 6], [0, 1, 2, 9, 4, 5, 6, 7]), (('p', 'q', 'r', 's'), ('q', 'Z', 's', 't')),
+              ({'k': [10, 20, 30, 40]}, {'k': [20, 30, 41]}), ([5, 6, 7, 8, 9], [6, 7, 'x', 'y', 9, 10]),
+              ([d_(2020, 1, 1), 1, 'a', t_(1, 2, 3)], [d_(2020, 1, 2), 2, 'a', t_(1, 2, 4)]), ((td_(1), td_(2), 'k'), (td_(3), td_(2), 'j')),
+              ([d_(2020, 1, 1), d_(2020, 1, 2), 5], [d_(2021, 1, 1), d_(2020, 1, 2), 6, 7]), ({'l': [t_(1, 0), 'x', t_(2, 0)]}, {'l': [t_(1, 1), 'y', t_(2, 0)]})]
     # items that the order-ignoring comparison puts in one group (equal digests) without being equal: permutations of one sub-list, sub-lists
     # that differ only in repetition; the group is removed, added, or paired with something else
     for _ in range(max(12, n // 8)):
